@@ -290,6 +290,29 @@ def generate(rnd: random.Random) -> dict[str, Any]:
             "console": console, "git": git}
 
 
+def generate_ignored_dir(rnd: random.Random) -> dict[str, Any]:
+    """a generated project in which git ignores a WHOLE directory (one pattern `name/`) and an explicit include names one
+    file inside it (or a glob over its parent): the ignored listing, the subtraction of explicit includes and the
+    relocation of packages (`from` / `to`) all meet on that file"""
+    for _ in range(50):
+        spec = generate(rnd)
+        deep = sorted(f for f in spec["files"] if f.count("/") >= 2 and not f.endswith(".gitignore"))
+        if deep:
+            break
+    else:
+        return spec
+    f = rnd.choice(deep)
+    d = f.rsplit("/", 1)[0]
+    for k in [k for k in spec["files"] if k.endswith(".gitignore")]:
+        del spec["files"][k]
+    spec["files"][".gitignore"] = rnd.choice([d.rsplit("/", 1)[1] + "/", "/" + d + "/", d.rsplit("/", 1)[1]]) + "\n"
+    spec["git"] = {"tracked": False}
+    k = rnd.random()
+    path = f if k < 0.6 else d.rsplit("/", 1)[0] + "/*" if k < 0.8 else d
+    spec["include"] = [*spec["include"], {"path": path, "format": rnd.choice([["sdist", "wheel"], ["sdist", "wheel"], ["wheel"]])}]
+    return spec
+
+
 # ------------------------------------------------------------------------------------------------
 # materialisation
 # ------------------------------------------------------------------------------------------------
